@@ -162,7 +162,7 @@ selects the point. -/
 theorem route_only_declared (drp : String) (ops : List Op) (t : String) (i : Nat) (pid : Nat)
     (h : pid ∈ (run drp ops).delivered t i) :
     ∃ w ∈ writeEvents drp t none ops, w.pt.id = pid ∧
-      ∃ d f, w.enabled = some d ∧ (w.db, w.rp) ∈ d.dbrps ∧ d.froms[i]? = some f ∧ selects f w.db w.rp w.pt = true := by
+      ∃ d, w.enabled = some d ∧ (w.db, w.rp) ∈ d.dbrps ∧ selectedBy d.froms (i + 1) i w.db w.rp w.pt = true := by
   rw [route_refines_spec drp ops] at h
   obtain ⟨w, hw, hp⟩ := List.mem_map.mp h
   obtain ⟨hw1, hq⟩ := List.mem_filter.mp hw
@@ -172,11 +172,7 @@ theorem route_only_declared (drp : String) (ops : List Op) (t : String) (i : Nat
   | none => simp [he] at hq
   | some d =>
     simp only [he, Bool.and_eq_true, decide_eq_true_eq] at hq
-    cases hf : d.froms[i]? with
-    | none => simp [hf] at hq
-    | some f =>
-      simp only [hf] at hq
-      exact ⟨d, f, rfl, hq.1, hf, hq.2⟩
+    exact ⟨d, rfl, hq.1, hq.2⟩
 
 /-- **Order**: what a sink records is a subsequence of the written points in write order (nothing reordered, nothing invented). -/
 theorem route_order (drp : String) (ops : List Op) (t : String) (i : Nat) :
